@@ -22,7 +22,7 @@ META["level_text"] = (
     "from_db_element on ANY pair list answering the lookups of the struct's keys like to_db_values — extra unrelated pairs, any order keeping first occurrences — is Ok of the value with db_id := Some(id); full), "
     "C22_roundtrip_stored / C22_roundtrip_in_context (instances: the stored pairs incl. the db_element_id pair of DbElement types; between foreign pairs), C22_update_by_id (on the validated "
     "database model, every revision: InsertValuesQuery{ids:[id], Multi[to_db_values]} — what insert().element(&v) with db_id = Some(id) builds — on an existing element changes exactly that element's pair list "
-    "by insert-or-replace per key and nothing else in values, aliases, graph; full), C22_select_is_query (the model selection is Queries.exec_select of the validated database model), C22_select_roundtrip (select().elements::<T>().ids(id) = SelectValuesQuery{keys: db_keys} on the stored pairs followed by from_db_element gives the value, "
+    "by insert-or-replace per key and nothing else in values, aliases, graph; full), C22_select_is_query (the model selection is Queries.exec_select of the validated database model), C22_insert_select_roundtrip (end to end on the database model, every revision, every state satisfying the C08-C11 invariant: InsertValuesQuery{ids:[Id(0)], Multi[to_db_values]} creates a node holding exactly those pairs and select().elements::<T>().ids(id) + from_db_element gives the value with db_id = Some(id); full), C22_select_roundtrip (select().elements::<T>().ids(id) = SelectValuesQuery{keys: db_keys} on the stored pairs followed by from_db_element gives the value, "
     "with the repaired db_keys; full), C22_flatten_option_keys_pinned_refuted (witness of the repaired db_keys defect, both revisions). All theorems are about the model; f32 fields are outside it. "
     "Tie to /repo (every run): 25 generated user types (#[derive(DbType)] / #[derive(DbElement)], custom value types with DbSerialize + DbValue + DbTypeMarker, enums as values, "
     "flatten (nested twice), skip, rename, db_id as Option<DbId> / Option<QueryId> / DbId); random values incl. None options, empty vectors, boundary integers, all float classes; inserted singly "
@@ -78,3 +78,20 @@ def run(ctx):
         assumptions=["field names of a type are distinct, also through flatten (the derive macro's documented requirement)",
                      "values are those a Rust program can hold (integers in range, lengths < 2^60)"],
     )
+
+
+def search(ctx, broken):
+    """a proof or the correspondence broke without a failing input: run the direct round-trip / update oracle with a
+    larger budget and other seeds on the implementation"""
+    tdir, blog = vlib.cargo_build("hx_core", "release")
+    if tdir is None:
+        return []
+    found = []
+    for k in range(3):
+        w = os.path.join(ctx.workdir, "search%d" % k)
+        os.makedirs(w, exist_ok=True)
+        rc, out = vlib.sh([os.path.join(tdir, "hx_core"), "c22", "--seed", str(ctx.seed * 7919 + k + 1), "--n", "600", "--out", w], timeout=3000)
+        found += [dict(cls=l.split(" ")[0], what=l[:5000]) for l in read_lines(os.path.join(w, "oracle.txt"))]
+        if found:
+            break
+    return found[:5]
